@@ -16,6 +16,11 @@ open GV.ScalarMul
 #print axioms C03_recode_bounds
 #print axioms C03_decode_encode
 #print axioms C03_batchWith
+#print axioms C03_winScalar_lt
+#print axioms C03_winScalar_window
+#print axioms C03_batchSampleWin
+#print axioms lazyTable_eq
+#print axioms batchOneF_getD
 #print axioms C03_jointPanics_iff
 #print axioms C03_alias_by_value
 #print axioms C03_alias_irrelevant
